@@ -169,6 +169,9 @@ class WirePropagateManager(WireManagerBase):
 
         for wire in self.wires:
             if not wire.grading.is_defined:
+                # the wire got its edge (or was moved) after its grading was created
+                wire.grading.length = wire.length
+
                 for chop in self.chops:
                     wire.grading.add_chop(chop)
 
